@@ -61,6 +61,10 @@ type attempt struct {
 	ReaderHeld           string   `json:"reader_held_between_lookup_and_send,omitempty"` // latehandoff
 	Companion            string   `json:"companion_call,omitempty"`                      // neverwithlongcall
 	Reuse                *attempt `json:"reused_fctx_request,omitempty"`                 // publishrefused: the next request with the same FContext
+	RegistryLock         string   `json:"registry_lock_schedule,omitempty"`              // busyregistry: what the monitor did with the registry's lock
+	ReturnedWhileLocked  bool     `json:"returned_while_registry_lock_held,omitempty"`   // busyregistry: the call came back before the monitor let go of the lock
+	CallsRegLeft         int      `json:"burst_calls_registration_left_at_return,omitempty"`
+	RegLeftWitness       string   `json:"burst_first_registration_left_at_return,omitempty"`
 }
 
 // peerFlags is the peer-side state of one attempt (one mutex).
@@ -142,6 +146,7 @@ type callSpec struct {
 	pre     func()        // runs in the calling goroutine immediately before the timed call
 	preTime time.Duration // how long pre may take (added to the watchdog)
 	shared  bool          // other calls are in flight on the same transport: no per-call registry check
+	post    func()        // runs in the calling goroutine immediately after the call has returned
 	release func()        // make the peer let go of everything, so that a stuck call can come back
 }
 
@@ -168,6 +173,9 @@ func invoke(cs callSpec) *attempt {
 		}
 		el := time.Since(start)
 		a.AnsweredBeforeReturn, _ = cs.flags.get()
+		if cs.post != nil {
+			cs.post()
+		}
 		a.RegAtReturn = frugal.VerifRegistrySize(cs.tr)
 		a.ElapsedNS = int64(el)
 		a.Elapsed = el.Round(time.Microsecond).String()
